@@ -119,6 +119,11 @@ Record case := mk_case {
   c_wc : bool;                              (* through a real working-copy snapshot *)
   c_disk_exec : bool;
   c_result : option (list (option (list N * bool)));  (* impl result; None = error/panic *)
+  (* working-copy sequences: every snapshot of the sequence (the first one included), each
+     taken after the file was rewritten / touched / chmod-ed with IDENTICAL bytes and a newer
+     mtime: disk exec bit, impl path value after the snapshot, impl stored marker length
+     (FileState::materialized_conflict_data) after the snapshot *)
+  c_seq : list (bool * option (list (option (list N * bool))) * option N);
 }.
 
 (** Recorded line diffs as the diff oracle (the same lookup as in the C05 case). *)
@@ -159,6 +164,64 @@ Definition model_result (c : case) : option (list (option (list N * bool))) :=
   else
     Some (map (option_map (fun x => (x, false)))
               (update_from_content (case_MH c) (case_ids c) (c_content c) (N.to_nat (c_len c)))).
+
+(** One snapshot of a tracked file whose stat info changed
+    ([FileSnapshotter::process_present_file] / [get_updated_tree_value],
+    lib/src/local_working_copy.rs:1786-1812 and 1862-1905), for a path whose current tree
+    value is a conflict of files. The state is the tree value and the file state's
+    [materialized_conflict_data] (stored marker length). The marker length handed to
+    [write_path_to_store] is the stored one, else [MIN_CONFLICT_MARKER_LEN]; the stored
+    length is preserved whenever the file is a normal file and the update is not a
+    resolution (also when there is no update). [None] = panic. *)
+Definition wc_step (MH : list (list N) -> list N + list (list (list N)))
+           (st : list (option (list N * bool)) * option nat) (disk : list N) (disk_exec : bool)
+  : option (list (option (list N * bool)) * option nat) :=
+  let '(vals, mcd) := st in
+  let L := match mcd with Some l => l | None => N.to_nat MIN_CONFLICT_MARKER_LEN end in
+  match vals with
+  | [_] => Some ([Some (disk, disk_exec)], mcd)   (* already a normal file: not a conflict *)
+  | _ =>
+      match snapshot_conflict MH vals disk disk_exec L with
+      | None => None
+      | Some new =>
+          if vals_eqb new vals then Some (vals, mcd)            (* update = None *)
+          else match new with
+               | [_] => Some (new, None)                         (* update is a resolution *)
+               | _ => Some (new, mcd)
+               end
+      end
+  end.
+
+(** A sequence of snapshots, the same bytes on disk before each; the states after each. *)
+Fixpoint wc_run (MH : list (list N) -> list N + list (list (list N)))
+         (st : list (option (list N * bool)) * option nat) (disk : list N) (execs : list bool)
+  : list (option (list (option (list N * bool)) * option nat)) :=
+  match execs with
+  | [] => []
+  | x :: t =>
+      match wc_step MH st disk x with
+      | None => [None]
+      | Some st' => Some st' :: wc_run MH st' disk t
+      end
+  end.
+
+Definition seq_eqb (a b : option (list (option (list N * bool)) * option N)) : bool :=
+  option_eqb (fun p q => vals_eqb (fst p) (fst q) && option_eqb N.eqb (snd p) (snd q)) a b.
+
+(** Model of the whole recorded sequence, observed through [tree_view]. *)
+Definition model_seq (c : case) : list (option (list (option (list N * bool)) * option N)) :=
+  map (option_map (fun st => (tree_view (fst st), option_map N.of_nat (snd st))))
+      (wc_run (case_MH c) (c_vals c, Some (N.to_nat (c_len c))) (c_content c)
+              (map (fun e => fst (fst e)) (c_seq c))).
+Definition impl_seq (c : case) : list (option (list (option (list N * bool)) * option N)) :=
+  map (fun e => option_map (fun v => (v, snd e)) (snd (fst e))) (c_seq c).
+
+(** Property on the implementation's outputs for a sequence of snapshots of the unedited
+    file: after EVERY snapshot the path value is the original conflict and the stored
+    marker length is still the chosen one. *)
+Definition seq_okb (c : case) : bool :=
+  forallb (fun e => option_eqb vals_eqb (snd (fst e)) (Some (c_vals c))
+                    && option_eqb N.eqb (snd e) (Some (c_len c))) (c_seq c).
 
 (** No line is a conflict-start marker of length [>= L]: then nothing parses. *)
 Definition no_start_b (L : nat) (content : list N) : bool :=
@@ -235,7 +298,10 @@ Definition check_case (c : case) : N :=
                    end
             | inl _ => true
             end in
-  let corr := d1 && d2 && d3 && d4 && d5 in
+  (* sequences of snapshots of the unedited file: tree values and stored marker lengths *)
+  let d6 := list_eqb seq_eqb (model_seq c) (impl_seq c) in
+  let corr := d1 && d2 && d3 && d4 && d5 && d6 in
   let detail : N := if negb d1 then 1%N else if negb d2 then 2%N else if negb d3 then 3%N
-                    else if negb d4 then 4%N else if negb d5 then 5%N else 6%N in
-  verdict corr (okb c) false detail.
+                    else if negb d4 then 4%N else if negb d5 then 5%N
+                    else if negb d6 then 6%N else 7%N in
+  verdict corr (okb c && seq_okb c) false detail.
